@@ -1,7 +1,8 @@
 (* C06 at the level of the I/O thread: a long run of frames in one readiness episode, or the
    same frames in several.  Besides agreement with the Core model: an episode that ends with
-   "would block" reports no transport failure, and - when nothing failed - the client received
-   as many deliveries as were sent, whatever the segmentation. *)
+   "would block" reports no transport failure, and - when nothing failed except possibly the
+   transport right behind the last complete frame of an episode - the client received as many
+   deliveries as were sent, whatever the segmentation. *)
 From Amq Require Export Check.C05.
 
 Definition is_deliver (f : frame) : bool := match f with FMethod _ (MDeliver _ _ _ _ _) => true | _ => false end.
@@ -12,10 +13,28 @@ Definition all_ok (obs : list (cobs * digest)) : bool :=
 Definition deliveries_received (obs : list (cobs * digest)) : N :=
   N.of_nat (length (filter (fun '(b, _) => match b with BRecv (RItem (IDelivery _)) => true | _ => false end) obs)).
 
+(* nothing went wrong except, possibly, the transport at the END of a read episode *)
+Definition only_transport_ends (ops : list cop) (obs : list (cobs * digest)) : bool :=
+  forallb (fun '(o, b, _) =>
+             match b with
+             | BOutcome OOk _ _ | BDone _ | BSent _ | BNewQ _ _ | BRecv _ | BBytes _ | BUnit => true
+             | BOutcome (OErr e) _ _ =>
+                 match o with
+                 | OEvent (EvStream _ (Some (_, t))) =>
+                     match expected_of_term t with Some e' => err_eqb e e' | None => false end
+                 | _ => false
+                 end
+             | _ => false
+             end) (zip3 ops obs).
+
+(* every frame is handed on as soon as its last byte has arrived: when the only thing that
+   went wrong is the end of the stream (or an I/O error, or an unparsable frame) BEHIND the
+   complete frames of a read episode, every delivery completed before it has been delivered -
+   in the same wake-up or not *)
 Definition oracle_ok (c : case) : bool :=
   let '(_, _, ops, obs, aux) := c in
   oracle_core c && causes_ok ops obs &&
-  (if all_ok obs && negb (torn ops)
+  (if only_transport_ends ops obs
    then deliveries_received obs =? N.of_nat (length (filter is_deliver (frames_of ops)))
    else true).
 Definition bad_oracle (cs : list case) : list N := bad_idx oracle_ok 0 cs.
